@@ -12,8 +12,10 @@
     connect on a ring for ANY non-empty list of non-bridging locations (single parts, genes with introns)
       and origin-spanning spans (`RingIn`): never fails, covers every input, well-formed span, never longer than the line hull,
       inside every covering span shorter than half the record (hence the shortest covering arc whenever
-      one shorter than half exists; single parts and origin-spanning spans), independent of the argument order, idempotent — via the closed form
-      `connR` of Proofs/LocConnectRing{N,In,Cover,Hull,Short,Perm}.lean; the two-input theorem
+      one shorter than half exists, with length `shortestArc L (canon …)`, the executable formula the driver
+      evaluates; single parts and origin-spanning spans), independent of the argument order, idempotent — via the closed form
+      `connR` of Proofs/LocRing{Sort,Split,Hull,Merge}.lean, LocConnectRing{N,In,Cover,Hull,Short,Perm,Arc}.lean,
+      CanonIvs.lean, ShortestArc.lean; the two-input theorem
       `connect_ring_two` (explicit gap formula) is kept
     offset of a single-part location and of an origin-spanning span on a ring (rotation of the same bases)
     extension of a single-part location on a linear and on a circular record (exactly the bases within the distance)
@@ -23,15 +25,14 @@
     the feature ordering is a strict weak order
   Carried by the exhaustive small-scope correspondence + executable set-of-bases spec only
   (see DESIGN.md): connect on a ring for origin-bridging inputs other than the two-part span (origin-bridging
-  genes with introns); the identification of "shortest covering span" with the executable `shortestArc L (canon …)`
-  formula used by the driver; extension of multi-exon locations; offset of multi-exon gene locations.
+  genes with introns); extension of multi-exon locations; offset of multi-exon gene locations.
 -/
 import ASV.Proofs.LocOrder
 import ASV.Proofs.LocString
 import ASV.Proofs.LocExtend
 import ASV.Proofs.LocConnectRing
 import ASV.Proofs.LocOffsetArea
-import ASV.Proofs.LocConnectRingPerm
+import ASV.Proofs.LocConnectRingArc
 import ASV.Proofs.LocExtendArea
 namespace ASV.C04
 open ASV
@@ -195,6 +196,17 @@ theorem connect_ring_shortest (ls : List Loc) (L : Int) (hne : ls ≠ []) (hL : 
   intro r hr i hi
   obtain ⟨l, hl, rfl⟩ := List.mem_map.1 hr
   exact hcov l hl i ((toR_mem_iff L hL l (hin l hl) i).1 hi)
+
+/-- the same with the executable formula of the spec (`shortestArc`: the record length minus the largest
+    gap between consecutive canonical intervals of the union of all input bases, going round the ring):
+    whenever that is less than half the record, it is exactly the length of the result -/
+theorem connect_ring_shortest_arc (ls : List Loc) (L : Int) (hne : ls ≠ []) (hL : 0 < L)
+    (hin : ∀ l ∈ ls, RingInStrict L l) :
+    ∃ r, connect ls (some L) = .ok r ∧
+      (2 * shortestArc L (canon (ls.flatMap (·.parts))) < L →
+        r.len = shortestArc L (canon (ls.flatMap (·.parts)))) :=
+  ⟨_, connect_ring_closed ls L hne hL (fun l hl => (hin l hl).ringIn),
+    connect_ring_len_shortestArc ls L hne hL hin⟩
 
 /-- the two-exon reverse-strand location `[90, 100)(−), [0, 10)(−)` (exons in descending order, so
     not origin-spanning for `location_bridges_origin`) is connected to its line hull, the whole
